@@ -16,6 +16,9 @@ pub struct Scn {
     pub sender: SenderScn,
     /// the other way of supplying the same bytes, per object
     pub variants: Vec<SourceSpec>,
+    /// the other run builds its objects through the typed builders (CreateFromBuffer / Stream / File)
+    #[serde(default)]
+    pub via_builder: bool,
 }
 
 pub struct C20;
@@ -40,7 +43,7 @@ fn gen_large(rng: &mut Rng) -> Scn {
         1 => SourceSpec::Stream(ReadSched::BufLike(8192)),
         _ => SourceSpec::File,
     };
-    Scn { sender: SenderScn { spec, objects: vec![o], ops, poll, snapshots: false }, variants: vec![variant] }
+    Scn { sender: SenderScn { spec, objects: vec![o], ops, poll, snapshots: false }, variants: vec![variant], via_builder: false }
 }
 
 pub fn gen(rng: &mut Rng, tier: Tier) -> Scn {
@@ -103,7 +106,7 @@ pub fn gen(rng: &mut Rng, tier: Tier) -> Scn {
         max_pkts: 8_000,
         idle_polls_after_done: 1,
     };
-    Scn { sender: SenderScn { spec, objects, ops, poll, snapshots: false }, variants }
+    Scn { sender: SenderScn { spec, objects, ops, poll, snapshots: false }, variants, via_builder: rng.chance(0.3) }
 }
 
 pub fn run(scn: &Scn, ctx: &Ctx, scratch: &Path) {
@@ -115,6 +118,7 @@ pub fn run(scn: &Scn, ctx: &Ctx, scratch: &Path) {
     for (i, v) in scn.variants.iter().enumerate() {
         if let Some(o) = other.objects.get_mut(i) {
             o.source = v.clone();
+            o.via_builder = scn.via_builder;
         }
     }
     let b = match Driver::new(&other, ctx, scratch) {
